@@ -352,6 +352,21 @@ class C12(Prop):
             # the same masks as they sit in a listed schedule record: decoded by the schedule parser
             from aioswitcher.schedule import parser as _parser
 
+            for mask in range(2, 255, 2):
+                # ... and again after the caller edited the set the parser had handed out for that mask
+                rec = (b"%02x" % 5) + b"01" + (b"%02x" % mask) + b"00" * 13
+                want = {n_ for n_, b_ in BITS.items() if mask & b_}
+                acc.ev()
+                try:
+                    first = _parser.ScheduleParser(rec).get_days()
+                    if isinstance(first, set):
+                        first.clear()
+                    again = {m.name for m in _parser.ScheduleParser(rec).get_days()}
+                    if again != want:
+                        acc.violation("decode-aliases-earlier-result", f"a schedule record with day mask {mask:02x}: after the caller emptied the set it was handed, the next record "
+                                      f"with that mask parses to {sorted(again)}, want {sorted(want)}", {"mask": mask})
+                except Exception as exc:
+                    acc.violation("decode-raised", f"a schedule record with day mask {mask:02x}: {type(exc).__name__}: {exc}", {"mask": mask})
             for mask in range(0, 256, 2):
                 acc.ev()
                 rec = (b"%02x" % 3) + b"01" + (b"%02x" % mask) + b"00" * 13
